@@ -24,14 +24,14 @@ import (
 type srDef struct {
 	name string
 	def  string
-	pts  [][2]float64 // two valid input points in the system's own coordinates
+	pts  [][2]float64 // two valid input points in the system's own coordinates (some: a third, outside the domain of some destination)
 }
 
 var srs = []srDef{
 	{"tmerc/OSGB36(7p)", "+proj=tmerc +lat_0=49 +lon_0=-2 +k=0.9996012717 +x_0=400000 +y_0=-100000 +datum=osgb36 +units=m", [][2]float64{{400000, 100000}, {651409.9, 313177.27}}},
 	{"lcc/potsdam(3p)", "+proj=lcc +lat_1=49 +lat_2=46 +lat_0=47.5 +lon_0=13.333333 +x_0=400000 +y_0=400000 +datum=potsdam", [][2]float64{{400000, 400000}, {250000, 520000}}},
-	{"EPSG:4326", "EPSG:4326", [][2]float64{{-1.5, 52}, {13.3, 47.5}}},
-	{"EPSG:3857", "EPSG:3857", [][2]float64{{-166979.2, 6800125.4}, {1480554.5, 6024072.1}}},
+	{"EPSG:4326", "EPSG:4326", [][2]float64{{-1.5, 52}, {13.3, 47.5}, {0, 90}}},
+	{"EPSG:3857", "EPSG:3857", [][2]float64{{-166979.2, 6800125.4}, {1480554.5, 6024072.1}, {0, 1e300}}},
 	{"longlat+axis=neu", "+proj=longlat +datum=WGS84 +axis=neu", [][2]float64{{52, -1.5}, {47.5, 13.3}}},
 	{"longlat+axis=wsu/bessel7p", "+proj=longlat +ellps=bessel +towgs84=577.326,90.129,463.919,5.137,1.474,5.297,2.4232 +axis=wsu", [][2]float64{{1.5, -52}, {-13.3, -47.5}}},
 	{"utm33/ED50-like(3p)", "+proj=utm +zone=33 +ellps=intl +towgs84=-87,-98,-121", [][2]float64{{500000, 5761038}, {414639.5, 4428236.1}}},
@@ -39,7 +39,7 @@ var srs = []srDef{
 	{"utm33/GRS80", "+proj=utm +zone=33 +ellps=GRS80 +towgs84=0,0,0", [][2]float64{{500000, 5761038}, {414639.5, 4428236.1}}},
 	{"utm32/WGS84", "+proj=utm +zone=32 +datum=WGS84", [][2]float64{{500000, 5761038}, {614639.5, 4428236.1}}},
 	// pairs that differ only by an omitted parameter (the projection factories fill in defaults on first use)
-	{"merc/lon_0=10", "+proj=merc +lon_0=10 +datum=WGS84", [][2]float64{{400000, 6800000}, {-1200000, 5000000}}},
+	{"merc/lon_0=10", "+proj=merc +lon_0=10 +datum=WGS84", [][2]float64{{400000, 6800000}, {-1200000, 5000000}, {1e300, 0}}},
 	{"merc/lon_0-omitted", "+proj=merc +datum=WGS84", [][2]float64{{400000, 6800000}, {-1200000, 5000000}}},
 	{"tmerc/x_0=500000", "+proj=tmerc +lon_0=9 +k=0.9996 +x_0=500000 +datum=WGS84", [][2]float64{{500000, 5761038}, {414639.5, 4428236.1}}},
 	{"tmerc/x_0-omitted", "+proj=tmerc +lon_0=9 +k=0.9996 +datum=WGS84", [][2]float64{{0, 5761038}, {-85360.5, 4428236.1}}},
@@ -154,28 +154,30 @@ func main() {
 		return
 	}
 	rep := report.New("C10", tier, "model_checking")
-	rep.Rule = "E2 (stateless, no dedup: closure-captured state cannot be fingerprinted): ALL sequences of up to 4 (thorough 5) operations Build(i,j) / Call(slot, point) over two sets of 5 (6) spatial references parsed once per sequence (set A: 7-parameter tmerc/OSGB36, 3-parameter lcc/potsdam, the registered EPSG:4326 (and EPSG:3857), long/lat with +axis=neu and with +axis=wsu on a 7-parameter datum; set B: three UTM references of which two share a zone on different ellipsoids/datums, EPSG:4326, krovak; set C: Mercator and transverse Mercator pairs that differ only by an omitted +lon_0 / +x_0, EPSG:4326); results must be bit-identical, two points per reference; every call must return what a freshly built transformer from freshly parsed definitions returns when called once; the reference values are recomputed after the sweep to detect changes of the registered globals. E1: structure trees of all eight types x transformers {nil, affine, fail on the k-th call for every k <= Len}: same type and nesting (*Bounds -> 4-vertex polygon), i-th vertex = t(i-th vertex), input unchanged, error returned, no panic. Non-trivial = sequences that call some transformer at least twice or interleave two transformers."
+	rep.Rule = "E2 (stateless, no dedup: closure-captured state cannot be fingerprinted): ALL sequences of up to 4 (thorough 5) operations Build(i,j) / Call(slot, point) over two sets of 5 (6) spatial references parsed once per sequence (set A: 7-parameter tmerc/OSGB36, 3-parameter lcc/potsdam, the registered EPSG:4326 (and EPSG:3857), long/lat with +axis=neu and with +axis=wsu on a 7-parameter datum; set B: three UTM references of which two share a zone on different ellipsoids/datums, EPSG:4326, krovak; set C: Mercator and transverse Mercator pairs that differ only by an omitted +lon_0 / +x_0, EPSG:4326); set D: EPSG:4326, EPSG:3857 and a Mercator with a third, out-of-domain point each - the pole fails towards Mercator, so sequences contain failing calls, repeated failing calls and calls after a failure); results (error or coordinates) must be bit-identical, two (set D: three) points per reference; every call must return what a freshly built transformer from freshly parsed definitions returns when called once; the reference values are recomputed after the sweep to detect changes of the registered globals. E1: structure trees of all eight types x transformers {nil, affine, fail on the k-th call for every k <= Len}: same type and nesting (*Bounds -> 4-vertex polygon), i-th vertex = t(i-th vertex), input unchanged, error returned, no panic. Non-trivial = sequences that call some transformer at least twice or interleave two transformers."
 	// (set, depth) pairs: every sequence up to the depth is enumerated over each set
 	type plan struct {
 		use   []int
 		depth int
+		npts  int // points per reference (3: incl. the out-of-domain point; the pole fails towards Mercator)
 	}
-	plans := []plan{{[]int{0, 1, 2, 4, 5}, 4}, {[]int{6, 8, 9, 2, 7}, 4}, {[]int{10, 11, 12, 13, 2}, 4}}
+	plans := []plan{{[]int{0, 1, 2, 4, 5}, 4, 2}, {[]int{6, 8, 9, 2, 7}, 4, 2}, {[]int{10, 11, 12, 13, 2}, 4, 2}, {[]int{2, 3, 10}, 4, 3}}
 	if tier == "thorough" {
 		plans = []plan{
-			{[]int{0, 1, 2, 3, 4, 5}, 4}, {[]int{6, 8, 9, 2, 7, 3}, 4},
-			{[]int{10, 11, 12, 13, 2, 3}, 4},
-			{[]int{0, 1, 2, 5}, 5}, {[]int{6, 8, 9, 2}, 5}, {[]int{0, 6, 3, 4}, 5}, {[]int{1, 7, 8, 5}, 5}, {[]int{10, 11, 12, 13}, 5},
+			{[]int{0, 1, 2, 3, 4, 5}, 4, 2}, {[]int{6, 8, 9, 2, 7, 3}, 4, 2},
+			{[]int{10, 11, 12, 13, 2, 3}, 4, 2},
+			{[]int{0, 1, 2, 5}, 5, 2}, {[]int{6, 8, 9, 2}, 5, 2}, {[]int{0, 6, 3, 4}, 5, 2}, {[]int{1, 7, 8, 5}, 5, 2}, {[]int{10, 11, 12, 13}, 5, 2},
+			{[]int{2, 3, 10}, 5, 3},
 		}
 	}
 	ref := map[[3]int]val{}
 	var nseq, ncalls, nontrivial int64
 	for _, pl := range plans {
-		use, depth := pl.use, pl.depth
+		use, depth, npts := pl.use, pl.depth, pl.npts
 		// reference values
 		for _, i := range use {
 			for _, j := range use {
-				for k := 0; k < 2; k++ {
+				for k := 0; k < npts; k++ {
 					key := [3]int{i, j, k}
 					if _, ok := ref[key]; ok {
 						continue
@@ -184,7 +186,7 @@ func main() {
 					ref[key] = v
 					if v.pan != "" {
 						rep.Violation("fresh-transformer|panic", map[string]interface{}{"from": srs[key[0]].name, "to": srs[key[1]].name, "point": srs[key[0]].pts[key[2]], "panic": v.pan})
-					} else if v.err && key[0] != key[1] {
+					} else if v.err && key[0] != key[1] && k < 2 {
 						rep.Violation("fresh-transformer|error", map[string]interface{}{"from": srs[key[0]].def, "to": srs[key[1]].def, "point": srs[key[0]].pts[key[2]]})
 					}
 				}
@@ -217,7 +219,7 @@ func main() {
 					rec(append(append([]op{}, seq...), b), nbuilt+1)
 				}
 				for s := 0; s < nbuilt; s++ {
-					for k := 0; k < 2; k++ {
+					for k := 0; k < npts; k++ {
 						rec(append(append([]op{}, seq...), op{slot: s, k: k}), nbuilt)
 					}
 				}
